@@ -7,7 +7,8 @@ for f in sorted(glob.glob("/verif/seeded/*/meta.json")):
     m = json.load(open(f))
     det = m.get("detection", {})
     cells = []
-    for p, d in sorted(det.items()):
+    for key, d in sorted(det.items()):
+        p = d.get('prop') or key.split(':')[0]
         if d.get("exit") == 1 and d.get("violations"):
             sg = (d.get("sigs") or [{}])[0]
             how = "/".join(str(sg[k]) for k in ("monitor", "kind", "op") if sg.get(k))
